@@ -333,6 +333,41 @@ func (g *FG) nonEmptyRangeLoops(c *Ctx, info *types.Info, body ast.Node) map[*cf
 						nonEmpty = true
 					}
 				}
+			} else if ok {
+				// a local defined once with a non-empty literal and never assigned or addressed again
+				defs, lits := 0, 0
+				ast.Inspect(body, func(y ast.Node) bool {
+					switch st := y.(type) {
+					case *ast.AssignStmt:
+						for i, l := range st.Lhs {
+							if identObj(info, l) == types.Object(v) {
+								defs++
+								if len(st.Lhs) == len(st.Rhs) {
+									if lit, ok := ast.Unparen(st.Rhs[i]).(*ast.CompositeLit); ok && len(lit.Elts) > 0 {
+										lits++
+									}
+								}
+							}
+						}
+					case *ast.ValueSpec:
+						for i, nm := range st.Names {
+							if info.Defs[nm] == types.Object(v) {
+								defs++
+								if i < len(st.Values) {
+									if lit, ok := ast.Unparen(st.Values[i]).(*ast.CompositeLit); ok && len(lit.Elts) > 0 {
+										lits++
+									}
+								}
+							}
+						}
+					case *ast.UnaryExpr:
+						if st.Op == token.AND && identObj(info, st.X) == types.Object(v) {
+							defs += 2
+						}
+					}
+					return true
+				})
+				nonEmpty = defs == 1 && lits == 1
 			}
 		}
 		if nonEmpty {
